@@ -10,12 +10,13 @@ def cases(tier):
         fx = fixture('C14', fam, o, tag=pl)
         L.append(fsm_case('C14', fx, 'batch2', ['P_C14', 'ENTRY=16', 'NREQ=2', 'CB_BUDGET=0'], timeout=1200 * T, witness=True, nreq=2, budget=0))
         L.append(fsm_case('C14', fx, 'single', ['P_C14', 'ENTRY=16', 'NREQ=1', 'CB_BUDGET=0'], timeout=900 * T, witness=False, nreq=1, budget=0))
+        L.append(fsm_case('C14', fx, 'two_steps', ['P_C14', 'ENTRY=18', 'CB_BUDGET=0'], timeout=1500 * T, witness=True, nreq=1, budget=0))
     return L
 
 def run(tier, seed):
     shutil.rmtree(os.path.join(BUILD, 'C14'), ignore_errors=True)
     return execute('C14', tier, seed, cases(tier), COMMON_ASSUME + [
         'fixture configured with PayloadT<P> (P = uint32_t; thorough adds an over-aligned 32-byte struct and a 5-byte struct, encoded/decoded by mk_payload/rd_payload in the fixture) and transition history',
-        'one or two queued external requests (kind change/restart/resume/select, any non-root destination), each with or without a payload; payload values are independent symbolic 32-bit values; guards approve, callbacks issue nothing',
+        'two consecutive steps reusing the same history slots (with/without payload in either order); one or two queued external requests (kind change/restart/resume/select, any non-root destination), each with or without a payload; payload values are independent symbolic 32-bit values; guards approve, callbacks issue nothing',
         'oracle: inside every guard pendingTransitions()[i] and inside every enter() currentTransitions()[i] expose destination, kind and exactly the i-th request\'s payload (or none); afterwards previousTransitions()[i] and lastTransitionTo(s) expose the same - never another request\'s value',
         'plan-task payloads (PayloadPlanT::append -> updatePlan) are exercised by the C06 harness with a payload fixture in the thorough tier'])
